@@ -5,7 +5,7 @@ cd "$(dirname "$0")/.."
 ids="$@"; [ -z "$ids" ] && ids=$(ls seeded)
 for s in $ids; do
   pid=$(python3 -c "import json;print(json.load(open('seeded/$s/meta.json'))['property'])")
-  git -C /repo apply seeded/$s/patch.diff || { echo "$s: patch does not apply"; continue; }
+  git -C /repo apply /verif/seeded/$s/patch.diff || { echo "$s: patch does not apply"; continue; }
   t0=$(date +%s)
   out=$(./check $pid --tier $tier 2>&1); rc=$?
   t1=$(date +%s)
